@@ -1,7 +1,538 @@
 package main
 
-// Replay of solver counterexamples against the real code (overlay test injection).
+// Replay of solver counterexamples against the real code.
+//
+// For a failed `ensures` obligation with a model, the replay
+//   1. rebuilds the entry state of the function's variant and evaluates the postcondition over *placeholders* for
+//      everything the function may change (the cells named in `modifies`, the results) -- the same term a caller
+//      would be handed;
+//   2. generates an in-package Go test (injected with `go test -overlay`, nothing is written to the repository) that
+//      builds the inputs of the model in memory (limbs written through unsafe at the offsets go/types computes for
+//      amd64), calls the real function, and dumps the placeholders' actual values (or the panic);
+//   3. substitutes inputs and observed outputs into the postcondition and evaluates it.
+// "failing_input_found" is reported only if the postcondition evaluates to the constant false on the real outputs
+// (or the function panicked although the contract allows no panic).  Anything else -- unsupported parameter shapes
+// (slices of symbolic length, interfaces), postconditions over abstract points or uninterpreted functions that do
+// not evaluate to a constant, a model that the real code handles correctly -- is reported as not failing, with the
+// log saying why; the VIOLATION line then keeps the suffix no-failing-input-found.
+
+import (
+	"encoding/json"
+	"fmt"
+	"go/types"
+	"math/big"
+	"os"
+	"os/exec"
+	"path/filepath"
+	"regexp"
+	"sort"
+	"strconv"
+	"strings"
+
+	"golang.org/x/tools/go/ssa"
+)
+
+type ensuresTemplate struct {
+	text string
+	term *Term
+}
+
+type replayTemplates struct {
+	ens     []ensuresTemplate
+	args    []Value
+	results []Value
+	obsVars []obsVar // placeholders to read back
+	inVars  []obsVar // symbolic input leaves to write
+	plan    aliasPlan
+	err     string
+}
+
+type obsVar struct {
+	name   string      // variable name in the terms
+	param  int         // parameter index (-1: result)
+	result int         // result index (param == -1)
+	off    int64       // byte offset inside the object
+	size   int64       // 1, 2, 4, 8
+	isBool bool
+	direct bool // the parameter / result is the scalar itself
+}
+
+var obligationNameRe = regexp.MustCompile(`^(.*)#ensures:(\d+)(?:\.\d+)?(?:/(.*?))?(?:/path=\d+)?$`)
 
 func tryReplay(cfg runConfig, res *runResult, v *violation) *replayResult {
-	return &replayResult{Attempted: false, Log: []string{"no replay harness for this obligation kind yet"}}
+	rr := &replayResult{}
+	logf := func(f string, a ...interface{}) { rr.Log = append(rr.Log, fmt.Sprintf(f, a...)) }
+	m := obligationNameRe.FindStringSubmatch(v.Obligation)
+	if m == nil {
+		logf("replay is implemented for `ensures` obligations only")
+		return rr
+	}
+	if v.Status != "sat" || len(v.Model) == 0 {
+		logf("the solver gave no model (status %s)", v.Status)
+		return rr
+	}
+	e := res.engine
+	fnShort, idx, variant := m[1], m[2], m[3]
+	ei, _ := strconv.Atoi(idx)
+	var fn *ssa.Function
+	var c *Contract
+	for _, k := range res.funcs {
+		f := res.fnsByKey[k]
+		if f == nil {
+			continue
+		}
+		pkg, rel := e.funcKey(f)
+		if pkg[strings.LastIndex(pkg, "/")+1:]+"."+rel == fnShort {
+			fn, c = f, e.db.Contracts[k]
+		}
+	}
+	if fn == nil || c == nil {
+		logf("function %s not found", fnShort)
+		return rr
+	}
+	if ei >= len(c.Ensures) {
+		logf("ensures index out of range")
+		return rr
+	}
+	var tp *replayTemplates
+	func() {
+		defer func() {
+			if r := recover(); r != nil {
+				tp = &replayTemplates{err: fmt.Sprint(r)}
+			}
+		}()
+		tp = e.buildTemplates(fn, c, variant)
+	}()
+	if tp == nil || tp.err != "" {
+		msg := "variant not found"
+		if tp != nil {
+			msg = tp.err
+		}
+		logf("no replay template: %s", msg)
+		return rr
+	}
+	rr.Attempted = true
+	// inputs from the model (missing variables are unconstrained: 0)
+	sub := map[string]*Term{}
+	inputDesc := []string{}
+	for _, iv := range tp.inVars {
+		val := big.NewInt(0)
+		if s, ok := v.Model[iv.name]; ok {
+			if iv.isBool {
+				if s == "true" {
+					val = big.NewInt(1)
+				}
+			} else if bv, ok := new(big.Int).SetString(s, 10); ok {
+				val = bv
+			}
+		}
+		if iv.isBool {
+			sub[iv.name] = mkBool(val.Sign() != 0)
+		} else {
+			sub[iv.name] = mkInt(val)
+		}
+		inputDesc = append(inputDesc, fmt.Sprintf("%s=%s", iv.name, val.String()))
+	}
+	sort.Strings(inputDesc)
+	rr.Input = strings.Join(inputDesc, " ")
+	obs, panicMsg, err := runReplayHarness(cfg.repo, e, fn, tp, sub)
+	if err != nil {
+		logf("harness: %v", err)
+		return rr
+	}
+	if panicMsg != "" {
+		rr.Observed = "panic: " + panicMsg
+		if len(c.Panics) == 0 {
+			rr.Failing = true
+			rr.Expected = "no panic is allowed by the contract"
+		} else {
+			logf("the real code panicked (%s); the contract allows panics under its `panics` clauses, not evaluated here", panicMsg)
+		}
+		return rr
+	}
+	var od []string
+	for k, val := range obs {
+		sub[k] = val
+		od = append(od, k+"="+val.Key())
+	}
+	sort.Strings(od)
+	rr.Observed = strings.Join(od, " ")
+	t := substitute(tp.ens[ei].term, sub)
+	rr.Expected = c.Ensures[ei].Text
+	switch {
+	case t.IsConst() && t.Val.Sign() == 0:
+		rr.Failing = true
+		logf("postcondition evaluates to false on the outputs of the real code")
+	case t.IsConst():
+		logf("the real code satisfies the postcondition on the model's input: the model is not a failing input (obligation undischarged, not refuted by execution)")
+	default:
+		logf("postcondition does not evaluate to a constant on concrete values (abstract group terms or uninterpreted functions): undecided by replay; residual: %s", trunc(pretty(t, 4), 300))
+	}
+	return rr
+}
+
+// buildTemplates re-creates the entry state of the named variant and evaluates the ensures clauses over placeholders.
+func (e *Engine) buildTemplates(fn *ssa.Function, c *Contract, variant string) *replayTemplates {
+	e.templateMode = true
+	e.templateOut = nil
+	defer func() { e.templateMode = false }()
+	pkg, rel := e.funcKey(fn)
+	e.curFunc = pkg[strings.LastIndex(pkg, "/")+1:] + "." + rel
+	e.curContract = c
+	plans := e.aliasPlans(fn, c)
+	cases := e.splitCases(c)
+	for _, plan := range plans {
+		for _, sc := range cases {
+			var labs []string
+			if plan.label != "" {
+				labs = append(labs, "alias="+plan.label)
+			}
+			if sc.label != "" {
+				labs = append(labs, sc.label)
+			}
+			if strings.Join(labs, ";") != variant {
+				continue
+			}
+			e.variant = variant
+			e.verifyVariant(fn, c, plan, sc)
+			e.variant = ""
+			if e.templateOut != nil {
+				e.templateOut.plan = plan
+			}
+			return e.templateOut
+		}
+	}
+	return nil
+}
+
+// contractTemplate is called by verifyVariant in template mode, in the entry state.
+func (e *Engine) contractTemplate(st *State, fn *ssa.Function, c *Contract, args []Value) {
+	tp := &replayTemplates{args: args}
+	e.templateOut = tp
+	sizes := types.SizesFor("gc", "amd64")
+	// input leaves
+	for i, p := range fn.Params {
+		if err := collectLeaves(e, st, sizes, args[i], p.Type(), p.Name(), i, -1, &tp.inVars); err != "" {
+			tp.err = err
+			return
+		}
+	}
+	pre := st.fork()
+	env := e.specEnv(st, pre, fn, c, args)
+	// placeholders for what may change
+	for _, m := range c.Modifies {
+		for _, x := range m.Exprs {
+			if _, isGhost := env.ghostStateItem(x); isGhost {
+				tp.err = "the contract modifies the abstract state of a stream / hash object"
+				return
+			}
+			cells, dyn := env.lvalueCells(x)
+			if len(dyn) > 0 {
+				tp.err = "the contract modifies a buffer of symbolic length"
+				return
+			}
+			for _, cr := range cells {
+				if !isScalarType(cr.typ) {
+					tp.err = "the contract modifies a non-scalar cell (" + cr.typ.String() + ")"
+					return
+				}
+				e.havocCell(st, cr, "obs")
+			}
+		}
+	}
+	// read-back list: every leaf of every pointer parameter, in the post state
+	for i, p := range fn.Params {
+		var leaves []obsVar
+		if err := collectLeaves(e, st, sizes, args[i], p.Type(), p.Name(), i, -1, &leaves); err != "" {
+			tp.err = err
+			return
+		}
+		for _, l := range leaves {
+			if strings.HasPrefix(l.name, "obs.") {
+				tp.obsVars = append(tp.obsVars, l)
+			}
+		}
+	}
+	rs := fn.Signature.Results()
+	results := make([]Value, rs.Len())
+	for i := 0; i < rs.Len(); i++ {
+		rt := rs.At(i).Type()
+		switch u := underlying(rt).(type) {
+		case *types.Basic:
+			if u.Info()&types.IsString != 0 {
+				tp.err = "string result"
+				return
+			}
+			results[i] = e.symbolicScalar(fmt.Sprintf("obsres%d", i), rt)
+			tp.obsVars = append(tp.obsVars, obsVar{name: fmt.Sprintf("obsres%d", i), param: -1, result: i, size: sizes.Sizeof(rt), isBool: u.Info()&types.IsBoolean != 0, direct: true})
+		case *types.Pointer:
+			results[i] = e.symbolicResult(st, rt, fmt.Sprintf("obsres%d", i), true)
+			if err := collectLeaves(e, st, sizes, results[i], rt, fmt.Sprintf("obsres%d", i), -1, i, &tp.obsVars); err != "" {
+				tp.err = err
+				return
+			}
+		default:
+			tp.err = "result type " + rt.String() + " is not supported by the replay"
+			return
+		}
+	}
+	tp.results = results
+	env.results = results
+	for _, en := range c.Ensures {
+		var t *Term
+		func() {
+			defer func() {
+				if r := recover(); r != nil {
+					t = nil
+				}
+			}()
+			t = st.sub(env.boolTerm(en.Expr))
+		}()
+		if t == nil {
+			tp.err = "postcondition cannot be evaluated over placeholders: " + en.Text
+			return
+		}
+		tp.ens = append(tp.ens, ensuresTemplate{text: en.Text, term: t})
+	}
+}
+
+// collectLeaves lists the scalar leaves of a parameter / result value with their byte offsets.
+func collectLeaves(e *Engine, st *State, sizes types.Sizes, v Value, t types.Type, name string, param, result int, out *[]obsVar) string {
+	switch x := v.(type) {
+	case *Term:
+		if x.Op != "var" {
+			return "" // constant parameter (value split)
+		}
+		b, _ := underlying(t).(*types.Basic)
+		*out = append(*out, obsVar{name: x.Name, param: param, result: result, size: sizes.Sizeof(t), isBool: b != nil && b.Info()&types.IsBoolean != 0, direct: true})
+		return ""
+	case *PtrVal:
+		if x.null {
+			return ""
+		}
+		if x.reg.dyn || len(x.path) != 0 {
+			return "pointer parameter " + name + " into a dynamic or interior region"
+		}
+		pt, ok := underlying(t).(*types.Pointer)
+		if !ok {
+			return "unexpected pointer value for " + name
+		}
+		bad := ""
+		leafOffsets(sizes, pt.Elem(), 0, nil, func(path []int, lt types.Type, off int64) {
+			if bad != "" {
+				return
+			}
+			if !isScalarType(lt) {
+				if _, isUP := underlying(lt).(*types.Basic); !isUP {
+					bad = "field " + pathName(pt.Elem(), path) + " of " + name + " is not a scalar (" + lt.String() + ")"
+				}
+				return
+			}
+			cell, ok := st.mem.cells[pathKey(x.reg.id, path)].(*Term)
+			if !ok || cell.Op != "var" {
+				return
+			}
+			b, _ := underlying(lt).(*types.Basic)
+			*out = append(*out, obsVar{name: cell.Name, param: param, result: result, off: off, size: sizes.Sizeof(lt), isBool: b != nil && b.Info()&types.IsBoolean != 0})
+		})
+		return bad
+	}
+	return fmt.Sprintf("parameter %s of type %s is not supported by the replay", name, t)
+}
+
+func leafOffsets(sizes types.Sizes, t types.Type, base int64, prefix []int, f func(path []int, lt types.Type, off int64)) {
+	switch u := underlying(t).(type) {
+	case *types.Struct:
+		var fs []*types.Var
+		for i := 0; i < u.NumFields(); i++ {
+			fs = append(fs, u.Field(i))
+		}
+		offs := sizes.Offsetsof(fs)
+		for i := range fs {
+			leafOffsets(sizes, fs[i].Type(), base+offs[i], extend(prefix, i), f)
+		}
+	case *types.Array:
+		es := sizes.Sizeof(u.Elem())
+		for i := int64(0); i < u.Len(); i++ {
+			leafOffsets(sizes, u.Elem(), base+i*es, extend(prefix, int(i)), f)
+		}
+	default:
+		f(prefix, t, base)
+	}
+}
+
+// runReplayHarness executes the real function on the model's input.
+func runReplayHarness(repo string, e *Engine, fn *ssa.Function, tp *replayTemplates, sub map[string]*Term) (map[string]*Term, string, error) {
+	pkgPath := fn.Pkg.Pkg.Path()
+	rel := strings.TrimPrefix(strings.TrimPrefix(pkgPath, e.modPath), "/")
+	imports := map[string]string{}
+	qual := func(p *types.Package) string {
+		if p.Path() == pkgPath {
+			return ""
+		}
+		imports[p.Path()] = p.Name()
+		return p.Name()
+	}
+	var sb strings.Builder
+	var body strings.Builder
+	isMethod := fn.Signature.Recv() != nil
+	argNames := make([]string, len(fn.Params))
+	for i, p := range fn.Params {
+		if r, ok := tp.plan.rep[i]; ok && r != i {
+			argNames[i] = argNames[r]
+			continue
+		}
+		an := fmt.Sprintf("a%d", i)
+		argNames[i] = an
+		switch u := underlying(p.Type()).(type) {
+		case *types.Pointer:
+			if pv, ok := tp.args[i].(*PtrVal); ok && pv.null {
+				fmt.Fprintf(&body, "\tvar %s %s\n", an, types.TypeString(p.Type(), qual))
+			} else {
+				fmt.Fprintf(&body, "\t%s := new(%s)\n", an, types.TypeString(u.Elem(), qual))
+			}
+		default:
+			fmt.Fprintf(&body, "\tvar %s %s\n", an, types.TypeString(p.Type(), qual))
+		}
+	}
+	for _, iv := range tp.inVars {
+		val := sub[iv.name]
+		if val == nil {
+			continue
+		}
+		num := "0"
+		if iv.isBool {
+			if val.Val.Sign() != 0 {
+				num = "1"
+			}
+		} else {
+			num = new(big.Int).And(val.Val, new(big.Int).Sub(new(big.Int).Lsh(big1, uint(8*iv.size)), big1)).String()
+		}
+		an := argNames[iv.param]
+		if iv.direct {
+			fmt.Fprintf(&body, "\tverifPut(unsafe.Pointer(&%s), 0, %d, %s)\n", an, iv.size, num)
+		} else {
+			fmt.Fprintf(&body, "\tverifPut(unsafe.Pointer(%s), %d, %d, %s)\n", an, iv.off, iv.size, num)
+		}
+	}
+	// call
+	nres := fn.Signature.Results().Len()
+	var lhs []string
+	for i := 0; i < nres; i++ {
+		lhs = append(lhs, fmt.Sprintf("r%d", i))
+	}
+	call := ""
+	if isMethod {
+		call = fmt.Sprintf("%s.%s(%s)", argNames[0], fn.Name(), strings.Join(argNames[1:], ", "))
+	} else {
+		call = fmt.Sprintf("%s(%s)", fn.Name(), strings.Join(argNames, ", "))
+	}
+	if nres > 0 {
+		fmt.Fprintf(&body, "\t%s := %s\n", strings.Join(lhs, ", "), call)
+	} else {
+		fmt.Fprintf(&body, "\t%s\n", call)
+	}
+	// read back
+	for _, ov := range tp.obsVars {
+		var src string
+		if ov.param >= 0 {
+			src = fmt.Sprintf("unsafe.Pointer(%s)", argNames[ov.param])
+		} else if ov.direct {
+			src = fmt.Sprintf("unsafe.Pointer(&r%d)", ov.result)
+		} else {
+			fmt.Fprintf(&body, "\tif r%d == nil {\n\t\tfmt.Fprintf(out, \"NIL %%d\\n\", %d)\n\t} else {\n", ov.result, ov.result)
+			fmt.Fprintf(&body, "\t\tfmt.Fprintf(out, \"%s %%d\\n\", verifGet(unsafe.Pointer(r%d), %d, %d))\n\t}\n", ov.name, ov.result, ov.off, ov.size)
+			continue
+		}
+		fmt.Fprintf(&body, "\tfmt.Fprintf(out, \"%s %%d\\n\", verifGet(%s, %d, %d))\n", ov.name, src, ov.off, ov.size)
+	}
+	for i := 0; i < nres; i++ {
+		fmt.Fprintf(&body, "\t_ = r%d\n", i)
+	}
+	fmt.Fprintf(&sb, "package %s\n\nimport (\n\t\"fmt\"\n\t\"os\"\n\t\"testing\"\n\t\"unsafe\"\n", fn.Pkg.Pkg.Name())
+	var ips []string
+	for p := range imports {
+		ips = append(ips, p)
+	}
+	sort.Strings(ips)
+	for _, p := range ips {
+		fmt.Fprintf(&sb, "\t%s %q\n", imports[p], p)
+	}
+	sb.WriteString(")\n\n")
+	sb.WriteString(`func verifPut(p unsafe.Pointer, off uintptr, size int, v uint64) {
+	for i := 0; i < size; i++ {
+		*(*byte)(unsafe.Add(p, off+uintptr(i))) = byte(v >> (8 * uint(i)))
+	}
+}
+
+func verifGet(p unsafe.Pointer, off uintptr, size int) uint64 {
+	var v uint64
+	for i := 0; i < size; i++ {
+		v |= uint64(*(*byte)(unsafe.Add(p, off+uintptr(i)))) << (8 * uint(i))
+	}
+	return v
+}
+
+func TestVerifReplay(t *testing.T) {
+	out, err := os.Create(os.Getenv("VERIF_REPLAY_OUT"))
+	if err != nil {
+		t.Fatal(err)
+	}
+	defer out.Close()
+	defer func() {
+		if r := recover(); r != nil {
+			fmt.Fprintf(out, "PANIC %v\n", r)
+		}
+	}()
+`)
+	sb.WriteString(body.String())
+	sb.WriteString("}\n")
+	tmp, err := os.MkdirTemp("", "vcgo-replay-")
+	if err != nil {
+		return nil, "", err
+	}
+	defer os.RemoveAll(tmp)
+	testFile := filepath.Join(tmp, "zz_verif_replay_test.go")
+	_ = os.WriteFile(testFile, []byte(sb.String()), 0o644)
+	ov := map[string]interface{}{"Replace": map[string]string{filepath.Join(repo, rel, "zz_verif_replay_test.go"): testFile}}
+	ovb, _ := json.Marshal(ov)
+	ovFile := filepath.Join(tmp, "ov.json")
+	_ = os.WriteFile(ovFile, ovb, 0o644)
+	outFile := filepath.Join(tmp, "out.txt")
+	cmd := exec.Command("go", "test", "-tags", "purego", "-overlay", ovFile, "-vet=off", "-count=1", "-timeout", "60s", "-run", "^TestVerifReplay$", ".")
+	cmd.Dir = filepath.Join(repo, rel)
+	cmd.Env = append(os.Environ(), "GOFLAGS=-mod=mod", "GOPROXY=off", "GOSUMDB=off", "GOTOOLCHAIN=local", "VERIF_REPLAY_OUT="+outFile)
+	if b, err := cmd.CombinedOutput(); err != nil {
+		return nil, "", fmt.Errorf("replay test did not run: %v: %s", err, trunc(string(b), 500))
+	}
+	data, err := os.ReadFile(outFile)
+	if err != nil {
+		return nil, "", err
+	}
+	obs := map[string]*Term{}
+	panicMsg := ""
+	isBool := map[string]bool{}
+	for _, ov := range tp.obsVars {
+		isBool[ov.name] = ov.isBool
+	}
+	for _, ln := range strings.Split(strings.TrimSpace(string(data)), "\n") {
+		if strings.HasPrefix(ln, "PANIC ") {
+			panicMsg = strings.TrimPrefix(ln, "PANIC ")
+			continue
+		}
+		f := strings.SplitN(ln, " ", 2)
+		if len(f) != 2 || f[0] == "NIL" {
+			continue
+		}
+		val, ok := new(big.Int).SetString(strings.TrimSpace(f[1]), 10)
+		if !ok {
+			continue
+		}
+		if isBool[f[0]] {
+			obs[f[0]] = mkBool(val.Sign() != 0)
+		} else {
+			obs[f[0]] = mkInt(val)
+		}
+	}
+	return obs, panicMsg, nil
 }
